@@ -398,7 +398,8 @@ def stream_random_terms(ctx, impl, sig, oracle, n, label="terms"):
         except ValueError as e:
             raise AssertionError("generator produced a term outside the domain: %s %s" % (e, G.dump_term(t)))
         for k, v in gen.hist.items():
-            hist[k.split("/")[0] if k.startswith("const:") else k] = hist.get(k, 0) + v
+            k2 = k.split("/")[0] if k.startswith("const:") else k
+            hist[k2] = hist.get(k2, 0) + v
         oracle.check(t, pick_settings(rng, i), label, nontrivial=t.size() >= 3)
         ctx.count("%s:%s" % (label, sig.thy_name))
         if i < 2:
@@ -807,6 +808,30 @@ def alpha_variants(t, rng):
     return [rec(t) for _ in range(3)]
 
 
+def memo_texts(impl, t, variants, setting, saved=None):
+    """The text of t under the memo histories: fresh table / after alpha-variants / after the other
+    unicode flag / (with everything printed so far still cached)."""
+    other = (not setting[0], setting[1], setting[2])
+    texts = {}
+    try:
+        impl.clear_memo()
+        texts["fresh"] = impl.print_term(t, setting)
+        impl.clear_memo()
+        for v in variants:
+            impl.print_term(v, setting)
+        texts["after-alpha-variants"] = impl.print_term(t, setting)
+        impl.clear_memo()
+        for v in variants + [t]:
+            impl.print_term(v, other)
+        texts["after-other-unicode-flag"] = impl.print_term(t, setting)
+        if saved is not None:
+            impl.pprint.term_ast.update(saved)
+            texts["after-whole-run"] = impl.print_term(t, setting)
+    except Exception as e:  # noqa
+        texts["error"] = repr(e)[:200]
+    return texts
+
+
 def stream_memo(ctx, impl, sig, oracle, n):
     """The same term printed (a) with an empty memo table, (b) after printing alpha-variants of it,
     (c) after printing it and its variants under the other unicode flag, (d) with everything the run
@@ -827,27 +852,11 @@ def stream_memo(ctx, impl, sig, oracle, n):
             vars, svars = free_names(t)
             u = rng.random() < 0.5
             setting = (u, None, False)
-            other = (not u, None, False)
             variants = alpha_variants(t, rng)
             ctx.case(("memo", G.dump_term(t)), nontrivial=True)
             ctx.count("memo")
-            texts = {}
-            try:
-                impl.set_context(vars, svars)
-                impl.clear_memo()
-                texts["fresh"] = impl.print_term(t, setting)
-                impl.clear_memo()
-                for v in variants:
-                    impl.print_term(v, setting)
-                texts["after-alpha-variants"] = impl.print_term(t, setting)
-                impl.clear_memo()
-                for v in variants + [t]:
-                    impl.print_term(v, other)
-                texts["after-other-unicode-flag"] = impl.print_term(t, setting)
-                impl.pprint.term_ast.update(saved)
-                texts["after-whole-run"] = impl.print_term(t, setting)
-            except Exception as e:  # noqa
-                texts["error"] = repr(e)[:200]
+            impl.set_context(vars, svars)
+            texts = memo_texts(impl, t, variants, setting, saved)
             bad = None
             if "error" in texts or len(set(texts.values())) != 1:
                 bad = "texts differ between memo histories: %s" % texts
@@ -1025,14 +1034,10 @@ def replay(ctx, rp):
         setting = tuple(r["setting"])
         vars, svars = free_names(t)
         impl.set_context(vars, svars)
-        impl.clear_memo()
-        a = impl.print_term(t, setting)
-        impl.clear_memo()
-        for v in variants:
-            impl.print_term(v, setting)
-        b = impl.print_term(t, setting)
-        print("fresh:", repr(a), " after variants:", repr(b))
-        return a != b or oracle.roundtrip(t, setting)[0] is not None
+        texts = memo_texts(impl, t, variants, setting)
+        for k, v in texts.items():
+            print("%s: %r" % (k, v))
+        return len(set(texts.values())) != 1 or "error" in texts or oracle.roundtrip(t, setting)[0] is not None
     if kind == "type":
         T = G.type_from_json(r["type"])
         text = impl.print_type(T, tuple(r["setting"]))
